@@ -286,8 +286,10 @@ object_t make_parameter(vrng& r)
     }
     case 5:
     {
+        // (lengths around the sizes a reader could buffer or narrow to: the statement says "any parameter")
+        static const int64_t lengths[] = {255, 256, 257, 1023, 1024, 1025, 4095, 4096, 4097, 5000, 8191, 8192, 8193};
         string_t s;
-        for (int64_t i = 0, n = r.range(0, 40); i < n; ++i)
+        for (int64_t i = 0, n = r.coin(0.25) ? lengths[r.next() % 13] + (r.coin(0.2) ? r.range(0, 300) : 0) : r.range(0, 40); i < n; ++i)
         {
             s += static_cast<char>(r.range(1, 255));
         }
@@ -318,7 +320,25 @@ object_t make_feature(vrng& r)
     o.all_storage_types = true;
     o.max_classes      = static_cast<int>(r.coin(0.1) ? 300 : 8);
     const auto schema  = vf::random_schema(r, o);
-    const auto feature = schema.features[0];
+    auto feature = schema.features[0];
+    if (r.coin(0.12))
+    {
+        // long names / labels (a string is a 32-bit length + bytes: block-wise readers have boundaries)
+        static const int64_t lengths[] = {256, 1024, 4096, 4097, 6000, 8192, 8193};
+        string_t name;
+        for (int64_t i = 0, n = lengths[r.next() % 7] + r.range(-1, 1); i < n; ++i)
+        {
+            name += static_cast<char>('a' + r.range(0, 25));
+        }
+        if (r.coin())
+        {
+            feature = feature_t{name}.scalar(feature_type::float32);
+        }
+        else
+        {
+            feature = feature_t{"f"}.sclass(strings_t{"a", name, "c" + name});
+        }
+    }
     object_t   obj;
     obj.kind   = "feature";
     obj.writer = [feature](std::ostream& s) { ::nano::write(s, feature); };
